@@ -34,9 +34,17 @@ def generate(rng, tier, i):
     else:
         base = rng.choice([126, 127, 125])
     relation = rng.choice(['equal', 'equal', 'adjacent', 'mixed'])
+    # NAME relation: unrelated values, small values, or siblings that differ in a single NAME field only (identity number, manufacturer
+    # code, ECU instance, function instance, function, vehicle system, vehicle system instance, industry group)
+    sibling = rng.random() < 0.35
+    common_name = rng.getrandbits(63)
+    lo, width = rng.choice([(0, 21), (0, 21), (21, 11), (21, 11), (32, 3), (35, 5), (40, 8), (49, 7), (56, 4), (60, 3)])
     for k in range(n):
         while True:
-            body = rng.getrandbits(63) if rng.random() < 0.7 else rng.choice([0, 1, 2, (1 << 63) - 1, (1 << 21), 1 << 32]) + rng.randrange(4)
+            if sibling:
+                body = (common_name & ~(((1 << width) - 1) << lo)) | (rng.choice([0, 1, (1 << width) - 1, 1 << (width - 1), rng.getrandbits(width)]) << lo)
+            else:
+                body = rng.getrandbits(63) if rng.random() < 0.7 else rng.choice([0, 1, 2, (1 << 63) - 1, (1 << 21), 1 << 32]) + rng.randrange(4)
             body &= ~(1 << 48)          # reserved bit reads 0
             aac = rng.random() < 0.55
             v = (body & ((1 << 63) - 1)) | (int(aac) << 63)
@@ -138,6 +146,11 @@ def execute(scn, keep_log=False, hook=None):
                 else:
                     if st != 2 or cur == adr:
                         v.append({'clause': 'aac-loser-did-not-reclaim', 'rank': 2, 'msg': '%sAAC CA %s lost address %d and ended %s at %s' % (tag, k, adr, STATE.get(st), cur)})
+        # a CA whose preferred address nobody else ever announced is the only (hence lowest) contender for it
+        for k, (st, adr) in snap.items():
+            if ann.get(pref[k]) == {names[k]} and (st, adr) != (2, pref[k]):
+                v.append({'clause': 'unchallenged-ca-lost-address', 'rank': 2,
+                          'msg': '%sCA %s was the only one to announce address %d but ended %s at %s' % (tag, k, pref[k], STATE.get(st), adr)})
         for k, (st, adr) in snap.items():
             if not aac[k] and st == 2 and adr != pref[k]:
                 v.append({'clause': 'fixed-ca-moved', 'rank': 2, 'msg': '%snon-AAC CA %s holds %d, preferred %d' % (tag, k, adr, pref[k])})
